@@ -143,7 +143,17 @@ class C10(Check):
         plan = {'config': cfg, 'mode': mode, 'warm': None, 'sched_seed': rng.randrange(1 << 30), 'lalr_salt': rng.randrange(4)}
         if mode == 'threads':
             nt = rng.choice([2, 2, 3, 3, 4])
-            if rng.random() < 0.35:
+            if rng.random() < 0.015:
+                # "process start": the process-wide grammar-loading parser does not exist yet and 2-3 threads construct instances at once
+                nt = rng.choice([2, 3])
+                tasks = []
+                for _ in range(nt):
+                    other = rng.choice([c_ for c_ in self.all_cfgs if c_.split('/')[0] in ('kw', 'calc', 'multi', 'inl')])
+                    p2 = self._gen_inst(other)
+                    st2 = rng.choice(sorted(p2.options.start))
+                    tasks.append([['construct', other, W.gen_text(rng, other, p2, st2), st2]])
+                plan['cold_start'] = True
+            elif rng.random() < 0.35:
                 # first-use race: every thread makes its first call at once on a fresh instance, same or different texts
                 op = self._gen_op(rng, cfg, mode)
                 tasks = [[op if rng.random() < 0.6 else self._gen_op(rng, cfg, mode)] for _ in range(nt)]
@@ -210,6 +220,12 @@ class C10(Check):
         finally:
             seams.set_lalr_salt(0)            # (the oracle instances are always built under salt 0)
         shared = {}
+        if plan.get('cold_start'):
+            import lark.load_grammar as LG
+            gp = getattr(LG, '_get_parser', None)
+            if gp is not None and hasattr(gp, 'cache'):
+                del gp.cache
+            out.count('probe:cold-start-concurrent-construction')
         if plan.get('warm'):
             O.run_op(p, e, plan['warm'], {}, shared=shared)
         sch = S.Scheduler(plan['strategy'], seed=plan['sched_seed'], forced=forced, lark_root=self.lark_root, probes=PROBES,
@@ -226,6 +242,12 @@ class C10(Check):
             caps = {k: (3_000_000 if op[0] in ('construct', 'sibling', 'save_load', 'reconstruct') else 400_000) for k, op in enumerate(tops)}
             tasks.append(sch.spawn(closures, interrupts=intr.get(ti), step_caps=caps))
         ok = sch.run(wall=120.0)
+        if plan.get('cold_start'):
+            # whatever the racing constructions left behind must not leak into the next run of this worker (or into the oracle)
+            import lark.load_grammar as LG
+            gp = getattr(LG, '_get_parser', None)
+            if gp is not None and hasattr(gp, 'cache'):
+                del gp.cache
         out.decisions = sch.decisions
         out.tick('traced_line_events', sch.gsteps)
         out.tick('api_ops', sum(len(t) for t in plan['tasks']))
